@@ -37,6 +37,9 @@ func (v *Verifier) VerifyFunc(f *ssa.Function, fc *FuncContract) (res *FuncResul
 				panic(r)
 			}
 		}
+		for _, n := range sortedKeys(c.loopNotes) {
+			res.Undecided = append(res.Undecided, n)
+		}
 		if len(res.Undecided) == 0 && fc != nil && !fc.NoVerify && f.Blocks != nil {
 			res.Undecided = append(res.Undecided, c.unmatchedAtCall(f, fc)...)
 		}
